@@ -90,7 +90,7 @@ def execute(acc, name, op, model, payload, trace, hist):
     spec_d = payload["model_digest"]
     prepare(op, name, model)
     before = S.snapshot(model)
-    with purity.window() as pw, audit.window() as aw:
+    with purity.window(model) as pw, audit.window() as aw:
         ok, res = guard(acc, "readonly:" + name, name, [], payload, lambda: op.execute(model).get_result())
     if not ok:
         return False
